@@ -3,7 +3,7 @@
 to /repo's working tree (never committed), run `./check <ID> quick` (and `thorough`
 when quick misses and --thorough is given), restore /repo, and store patch, demo,
 meta and the result under /verif/seeded/<ID>/<n>/.
-usage: seedtest.py <ID> [--thorough] [--only n] [--also ID2,ID3] [--round 2]"""
+usage: seedtest.py <ID> [--thorough] [--only n] [--also ID2,ID3] [--round 2|3] [--stored]"""
 import sys, os, subprocess, json, shutil, glob, time
 
 def sh(cmd, **kw):
@@ -33,19 +33,28 @@ def main():
     also = sys.argv[sys.argv.index("--also") + 1].split(",") if "--also" in sys.argv else []
     rnd = sys.argv[sys.argv.index("--round") + 1] if "--round" in sys.argv else ""
     src = "/tmp/seed%s-%s/out" % (rnd, pid)
+    stored = "--stored" in sys.argv or not os.path.isdir(src)      # re-test the patches kept under /verif/seeded
     clean_repo()
-    for d in sorted(glob.glob(src + "/*/")):
+    prefix = ("r%s-" % rnd) if rnd else ""
+    if stored:
+        dirs = [d for d in sorted(glob.glob("/verif/seeded/%s/%s*/" % (pid, prefix))) if rnd or not os.path.basename(d.rstrip("/")).startswith("r")]
+    else:
+        dirs = sorted(d for d in glob.glob(src + "/*/") if os.path.basename(d.rstrip("/")).isdigit())
+    for d in dirs:
         n = os.path.basename(d.rstrip("/"))
+        if stored: n = n[len(prefix):]
         if only and n != only: continue
         patch = os.path.join(d, "patch.diff")
         if not os.path.exists(patch): print(pid, n, "no patch"); continue
-        dst = "/verif/seeded/%s/%s%s" % (pid, ("r%s-" % rnd) if rnd else "", n)
+        dst = "/verif/seeded/%s/%s%s" % (pid, prefix, n)
         os.makedirs(dst, exist_ok=True)
-        shutil.copy(patch, dst)
-        if os.path.exists(os.path.join(d, "meta.json")): shutil.copy(os.path.join(d, "meta.json"), dst)
-        if os.path.isdir(os.path.join(d, "demo")):
-            shutil.rmtree(dst + "/demo", ignore_errors=True)
-            shutil.copytree(os.path.join(d, "demo"), dst + "/demo", ignore=shutil.ignore_patterns("target", "*.ll", "*.o"))
+        if not stored:
+            shutil.copy(patch, dst)
+            if os.path.exists(os.path.join(d, "meta.json")): shutil.copy(os.path.join(d, "meta.json"), dst)
+            if os.path.isdir(os.path.join(d, "demo")):
+                shutil.rmtree(dst + "/demo", ignore_errors=True)
+                shutil.copytree(os.path.join(d, "demo"), dst + "/demo", ignore=shutil.ignore_patterns("target", "*.ll", "*.o"))
+        patch = os.path.join(dst, "patch.diff")
         a = sh("git -C /repo apply --whitespace=nowarn " + patch)
         if a.returncode != 0:
             print(pid, n, "PATCH DOES NOT APPLY", a.stderr[:300]); json.dump(dict(applies=False, err=a.stderr), open(dst + "/result.json", "w"), indent=1); continue
